@@ -11,6 +11,7 @@ import decimal
 import enum
 import io
 import json
+import re
 
 from . import core, impl  # noqa: F401  (impl puts /repo first on sys.path)
 from .core import cZ, clist, cbool, cstr, copt
@@ -46,6 +47,8 @@ ASSUMPTIONS = [
     'non-expanded inventories are checked relationally (token stream), Cost columns not generated; EnumRenderer '
     '(ObjectRenderer with format = value.name) is modelled as a str column over the member names',
     'values are well typed for their column (BQL columns are typed); dict/other objects enter the model as their str()',
+    'per-slot alignment of non-expanded inventory columns (slot_alignment, computed in the harness from the emitted text) applies to '
+    'columns with at most 5 (commodity, lot) slots; with more the renderer documents a plain joined list, which is only read back',
     'Decimals are finite (NaN/Infinity raise TypeError in DecimalRenderer.update; not generated)',
 ]
 
@@ -304,6 +307,7 @@ def run_impl(arg):
     o2 = dict(o, listsep=',', boxed=False, spaced=False, unicode=False)
     guard('csvtext', lambda f: query_render.render_text(cols, rows, dc, f, **o2))
     res['hyp'] = check_hypothesis(case, o, cols, rows, dc)
+    res['slots'] = slot_alignment(case, o, res['text'])
     return res
 
 
@@ -346,6 +350,172 @@ def check_hypothesis(case, o, cols, rows, dc):
             except Exception as e:  # noqa: BLE001
                 bad.append([i, role, key, type(e).__name__])
     return bad
+
+
+# ------------------------------------------------------------------ per-slot alignment of tabular inventory columns
+# Property text: "columns start at fixed offsets ... decimals and amounts in a column are aligned on the decimal point".
+# A non-expanded inventory column is a table inside the table: one slot per (commodity, k-th lot).  Oracle, computed from
+# the emitted TEXT only: the units of the k-th lot of a commodity have their decimal point and their currency symbol at
+# ONE offset in every row of the column, and so have the costs of the k-th lots that carry one.  (check_table reads the
+# cell back as a token stream, which does not see offsets.)  Applies when the column has at most MAX_SLOTS slots: beyond
+# that the renderer documents a plain joined list instead of the tabular layout.
+MAX_SLOTS = 5
+_NUM = r'-?\d+(?:\.\d+)?'
+_CUR = r"[A-Z][A-Z0-9'._-]*[A-Z0-9]|[A-Z]"
+LOT_RE = re.compile(rf'(?P<num>{_NUM}) +(?P<cur>{_CUR}) *(?:\{{ *(?P<cnum>{_NUM}) +(?P<ccur>{_CUR}) *\}})?')
+
+
+def column_spans(o, lines):
+    """[(offset, width)] of the columns, from the rule line under the header; None when there is none."""
+    b = 1 if o['boxed'] else 0
+    if len(lines) < b + 2:
+        return None
+    hl = lines[b + 1]
+    spans = []
+    if not o['boxed']:
+        off = 0
+        for run in hl.split('  '):
+            if not run or set(run) - {'-', '─'}:
+                return None
+            spans.append((off, len(run)))
+            off += len(run) + 2
+        return spans
+    off = 1
+    for run in re.split(r'[+┼]', hl[1:-1]):
+        if len(run) < 3:
+            return None
+        spans.append((off + 1, len(run) - 2))
+        off += len(run) + 1
+    return spans
+
+
+def _anchor(m, num, cur):
+    txt = m.group(num)
+    return (m.start(num) + len(txt.split('.')[0]), m.start(cur))
+
+
+def slot_alignment(case, o, text):
+    """-> {'checked': number of inventory columns checked, 'skipped': {reason: n}, 'bad': [[column, code, detail]]}
+    code 13: units of one (commodity, k-th lot) slot at different offsets; 14: costs of one slot at different offsets."""
+    out = {'checked': 0, 'skipped': {}, 'bad': [], 'slots': 0, 'mixed_cost_slots': 0, 'shifted_candidates': 0}
+
+    def skip(why):
+        out['skipped'][why] = out['skipped'].get(why, 0) + 1
+    icols = [j for j, (_, t) in enumerate(case['cols']) if t == 'inventory']
+    if not icols or o['expand'] or not isinstance(text, str):
+        return out
+    lines = text.split('\n')[:-1]
+    spans = column_spans(o, lines)
+    b = 1 if o['boxed'] else 0
+    body = lines[b + 2:len(lines) - b]
+    step = 2 if o['spaced'] else 1
+    if spans is None or len(spans) != len(case['cols']) or len(body) != step * len(case['rows']):
+        skip('layout')       # not a table with one line per row: reported by check_table
+        return out
+    for j in icols:
+        counts = {}
+        for r in case['rows']:
+            if r[j] is not None:
+                per = {}
+                for p in r[j][1]:
+                    per[p[1]] = per.get(p[1], 0) + 1
+                for c, n in per.items():
+                    counts[c] = max(counts.get(c, 0), n)
+        nslots = sum(counts.values())
+        if nslots > MAX_SLOTS:
+            skip('more-than-%d-slots' % MAX_SLOTS)
+            continue
+        if nslots == 0:
+            skip('no-lot')
+            continue
+        off, w = spans[j]
+        units, costs, withcost = {}, {}, {}
+        parsed = True
+        for i, r in enumerate(case['rows']):
+            if r[j] is None:
+                continue
+            slot = body[i * step][off:off + w]
+            lots = list(LOT_RE.finditer(slot))
+            if sorted(m.group('cur') for m in lots) != sorted(p[1] for p in r[j][1]) or \
+               sum(m.group('cnum') is not None for m in lots) != sum(p[2] is not None for p in r[j][1]):
+                parsed = False
+                break
+            kth = {}
+            for m in lots:
+                c = m.group('cur')
+                key = (c, kth.get(c, 0))
+                kth[c] = kth.get(c, 0) + 1
+                units.setdefault(key, []).append((i, _anchor(m, 'num', 'cur')))
+                withcost.setdefault(key, set()).add(m.group('cnum') is not None)
+                if m.group('cnum') is not None:
+                    costs.setdefault(key, []).append((i, _anchor(m, 'cnum', 'ccur')))
+        if not parsed:
+            skip('cell-not-read')       # the read-back of the cell is check_table's subject (code 7)
+            continue
+        out['checked'] += 1
+        out['slots'] += nslots
+        out['mixed_cost_slots'] += sum(1 for v in withcost.values() if len(v) == 2)
+        # a row whose lot WITHOUT cost sits in a slot that has room for a cost and is followed by another lot
+        order = sorted(units)
+        for key, v in withcost.items():
+            if len(v) == 2 and order.index(key) + 1 < len(order):
+                out['shifted_candidates'] += 1
+        for code, anchors in ((13, units), (14, costs)):
+            for key, lst in sorted(anchors.items()):
+                if len({a for _, a in lst}) > 1:
+                    out['bad'].append([j, code, f'{key[0]} lot {key[1] + 1}: (decimal point, currency) offsets by row '
+                                                f'{[[i, list(a)] for i, a in lst]}'])
+                    break
+    return out
+
+
+def gen_inventory_table(rng):
+    """A result table around ONE tabular inventory column: 1-3 commodities, at most MAX_SLOTS slots, lots with and
+    without cost of the same commodity in different rows, columns to the left and to the right of it."""
+    ncur = rng.choice([1, 2, 2, 3, 3])
+    curs = rng.sample(CURS, ncur)
+    ccurs = rng.sample(CURS, rng.choice([1, 1, 2]))
+    counts = {c: 1 for c in curs}
+    for _ in range(rng.choice([0, 1, 2])):
+        c = rng.choice(curs)
+        if sum(counts.values()) < MAX_SLOTS:
+            counts[c] += 1
+    nums = [n for n in NUMS if D(n) != 0]
+    if rng.random() < 0.4:
+        nums = rng.sample(nums, 5)
+    cost_p = {c: rng.choice([0.0, 0.5, 0.5, 0.5, 1.0]) for c in curs}
+    present_p = rng.choice([0.6, 0.8, 1.0])
+    rows = []
+    for _ in range(rng.choice([2, 3, 3, 4, 5, 6])):
+        lots, seen = [], set()
+        for c in curs:
+            if rng.random() >= present_p:
+                continue
+            for _k in range(rng.randint(1, counts[c])):
+                if rng.random() < cost_p[c]:
+                    cn, cc = rng.choice([n for n in nums if not n.startswith('-')]), rng.choice(ccurs)
+                    key = (c, D(cn), cc)
+                else:
+                    cn = cc = None
+                    key = (c, None, None)
+                if key in seen:
+                    continue
+                seen.add(key)
+                lots.append([rng.choice(nums), c, cn, cc])
+        rows.append(None if rng.random() < 0.08 else ['I', lots])
+    left = rng.choice([[], [['account', 'str']], [['account', 'str']], [['d', 'date']]])
+    right = rng.choice([[], [['n', 'int']], [['n', 'int']], [['x', 'decimal']], [['other', 'amount']], [['flag', 'bool'], ['n', 'int']]])
+    cols = left + [[rng.choice(['balance', 'sum_position', 'inv', 'b']), 'inventory']] + right
+    feat = {'curs': curs, 'nums': nums, 'cost_p': 0.3}
+    prec = {c: rng.choice([0, 2, 2, 3, 4]) for c in set(curs) | set(ccurs)}
+    if rng.random() < 0.3:
+        for c in rng.sample(sorted(prec), rng.randint(1, len(prec))):
+            del prec[c]
+    null_p = rng.choice([0.0, 0.2])
+    table = []
+    for inv in rows:
+        table.append([gen_cell(rng, t, null_p, feat) for _, t in left] + [inv] + [gen_cell(rng, t, null_p, feat) for _, t in right])
+    return {'cols': cols, 'rows': table, 'prec': prec}
 
 
 # ------------------------------------------------------------------ model side
@@ -411,6 +581,8 @@ def evaluate(pairs, tag='c16'):
             f.append(('check-csv', cc))
         if r['hyp']:
             f.append(('hypothesis', 0))
+        for code in sorted({b[1] for b in r['slots']['bad']}):
+            f.append(('inventory-slots', code))
         out.append(f)
     return out, impl_res
 
@@ -538,7 +710,24 @@ def run(tier, rng):
         for b in rng.sample(range(32), 2 if tier == 'quick' else 4):
             pairs.append((case, gen_opts(rng, b)))
             risky_flags.append(True)
+    ninv = 130 if tier == 'quick' else 1200
+    for k in range(ninv):
+        case = gen_inventory_table(rng)
+        for b in rng.sample(range(32), 3 if tier == 'quick' else 6):
+            pairs.append((case, gen_opts(rng, b & ~8)))       # expand off: the tabular layout
+            risky_flags.append(False)
     fails, impl_res = evaluate(pairs)
+
+    slots = {'inventory_columns_checked': 0, 'slots': 0, 'slots_with_and_without_cost': 0,
+             'costless_lot_in_cost_slot_with_slot_to_the_right': 0, 'skipped': {}, 'directed_tables': ninv}
+    for r in impl_res:
+        sl = r['slots']
+        slots['inventory_columns_checked'] += sl['checked']
+        slots['slots'] += sl['slots']
+        slots['slots_with_and_without_cost'] += sl['mixed_cost_slots']
+        slots['costless_lot_in_cost_slot_with_slot_to_the_right'] += sl['shifted_candidates']
+        for k, n in sl['skipped'].items():
+            slots['skipped'][k] = slots['skipped'].get(k, 0) + n
 
     hist = {'datatype': {}, 'option_bits': {}, 'nrows': {}, 'ncols': {}, 'nullvalue': {}, 'listsep': {},
             'null_cells': 0, 'cells': 0, 'negative_numbers': 0, 'multi_position_inventories': 0, 'empty_inventories': 0,
@@ -610,12 +799,15 @@ def run(tier, rng):
                 'sets (quick: 6 of the 32 boolean combinations per table, thorough: all 32) x nullvalue in 5 choices x listsep in 5 '
                 'choices; rendered by query_render.render_text/render_csv and render/text.py, render/csv.py; exact datatypes compared '
                 'byte for byte with the model, check_table/check_csv (vm_compute) applied to every implementation output; "risky" '
-                'tables additionally contain scientific decimals and newlines in strings; about 30% of all tables have currencies unknown to the ledger context; '
+                'tables additionally contain scientific decimals and newlines in strings; directed tables around one tabular (non-expanded) '
+                'inventory column (1-3 commodities, <= 5 slots, lots with and without cost of one commodity in different rows, columns to its right) '
+                'with the per-slot offset oracle slot_alignment (units / costs of the k-th lot of a commodity at one offset in every row), which '
+                'is applied to every non-expanded inventory column of every table; about 30% of all tables have currencies unknown to the ledger context; '
                 'non-trivial = (table, options) with at least one row that rendered',
         'samples': [json.dumps({'table': c, 'opts': o}) for c, o in pairs[len(CORPUS):len(CORPUS) + 3]],
         'traces_validated_against_impl': len(pairs), 'histograms': hist,
         'exhaustive': 'all 32 boolean option combinations per table' if nopt == 32 else False,
-        'distinct_tables': len(seen_tables),
+        'distinct_tables': len(seen_tables), 'inventory_slot_alignment': slots,
     }
     return {'coverage': cov, 'violations': violations}
 
